@@ -345,6 +345,9 @@ func emptyLabels(pats []patInst, supply map[string]uint64, lab map[string]bool) 
 		if !p.f.leaf || p.pat == "neither" {
 			continue
 		}
+		if _, isElem := elemTypeOf(p.f.typ); isElem {
+			continue
+		}
 		emptyAt := func(k string) bool {
 			seed, ok := supply[k]
 			return ok && isEmptyCollection(makeVal(p.f.typ, seed))
@@ -367,7 +370,7 @@ func emptyLabels(pats []patInst, supply map[string]uint64, lab map[string]bool) 
 }
 
 type evalResult struct {
-	set    map[string]uint64 // Go leaf path -> seed of the value that must land
+	set    map[string]string // Go leaf path -> expanded-leaf key whose value must land
 	both   []*mfield         // fields supplied under both names
 	nonNil bool
 	pats   []patInst
@@ -376,10 +379,10 @@ type evalResult struct {
 }
 
 func (m *model) eval(supply map[string]uint64) evalResult {
-	res := evalResult{set: map[string]uint64{}}
-	var rec func(fs []*mfield, key string) (map[string]uint64, bool)
-	rec = func(fs []*mfield, key string) (map[string]uint64, bool) {
-		set := map[string]uint64{}
+	res := evalResult{set: map[string]string{}}
+	var rec func(fs []*mfield, key string) (map[string]string, bool)
+	rec = func(fs []*mfield, key string) (map[string]string, bool) {
+		set := map[string]string{}
 		any := false
 		for _, f := range fs {
 			pk := f.name
@@ -388,10 +391,10 @@ func (m *model) eval(supply map[string]uint64) evalResult {
 			}
 			ak := pk + aliasMark
 			if f.leaf {
-				ps, pOK := supply[pk]
-				as, aOK := uint64(0), false
+				_, pOK := supply[pk]
+				aOK := false
 				if f.hasAlias {
-					as, aOK = supply[ak]
+					_, aOK = supply[ak]
 				}
 				if f.classA && pOK {
 					res.classASupplied = append(res.classASupplied, f)
@@ -404,11 +407,11 @@ func (m *model) eval(supply map[string]uint64) evalResult {
 					any = true
 				case pOK:
 					pat = "primary"
-					set[f.path] = ps
+					set[f.path] = pk
 					any = true
 				case aOK:
 					pat = "alias"
-					set[f.path] = as
+					set[f.path] = ak
 					any = true
 				}
 				if f.hasAlias {
@@ -417,7 +420,7 @@ func (m *model) eval(supply map[string]uint64) evalResult {
 				continue
 			}
 			pset, pAny := rec(f.kids, pk)
-			var aset map[string]uint64
+			var aset map[string]string
 			aAny := false
 			if f.hasAlias {
 				aset, aAny = rec(f.kids, ak)
@@ -453,7 +456,7 @@ func (m *model) eval(supply map[string]uint64) evalResult {
 
 // want builds the value of the pointerified type pt that the source must
 // return when no field is supplied under both names.
-func (m *model) want(pt reflect.Type, set map[string]uint64) (reflect.Value, error) {
+func (m *model) want(pt reflect.Type, set map[string]string, valOf func(f *mfield, key string) reflect.Value) (reflect.Value, error) {
 	v := reflect.New(pt).Elem()
 	var rec func(v reflect.Value, fs []*mfield) error
 	rec = func(v reflect.Value, fs []*mfield) error {
@@ -463,11 +466,11 @@ func (m *model) want(pt reflect.Type, set map[string]uint64) (reflect.Value, err
 				return fmt.Errorf("pointerified type has no field %s", f.path)
 			}
 			if f.leaf {
-				seed, ok := set[f.path]
+				key, ok := set[f.path]
 				if !ok {
 					continue
 				}
-				val := makeVal(f.typ, seed)
+				val := valOf(f, key)
 				switch {
 				case pf.Type() == val.Type():
 					pf.Set(val)
@@ -818,6 +821,9 @@ func (n *docNode) yaml(indent string, b *strings.Builder) {
 
 func (n *docNode) tomlInline() string {
 	if n.kids == nil {
+		if n.leaf == "" {
+			return "{}"
+		}
 		return n.leaf
 	}
 	parts := []string{}
